@@ -137,7 +137,8 @@ class Harness:
             return body
         for i, prog in enumerate(SCENARIOS[self.scn]):
             sc.add(i, mk(prog))
-        x = sc.run()
+        with S.coop_locks(sc, ps):
+            x = sc.run()
         w.hook = None
         x.events = ev
         return x
